@@ -135,7 +135,7 @@ func vfC24Exec(v *vfT, c vfC24Case) (branching []int) {
 		}
 	}
 	gates.OpenAll()
-	if ok, dump := vfWaitActors(actors, 5*time.Second); !ok {
+	if ok, dump := vfWaitActors(actors, 20*time.Second); !ok {
 		v.Violation("C24/stuck", "SetLocalDescription did not return: %s", dump)
 	}
 	if sldErr != nil {
